@@ -6,24 +6,47 @@ theorem finishedIn_append {tr : List Ev} {d : Name} (h : finishedIn tr d = true)
     finishedIn (tr ++ obs) d = true := by
   unfold finishedIn at *; rw [List.any_append, h]; rfl
 
-/-- membership in `calcsAt` is monotone in the start list and in the trace -/
-theorem calcsAt_mono (inp : RunInput) (tr obs : List Ev) : ∀ (k : Nat) (cs cs' : List Name),
-    (∀ y ∈ cs, y ∈ cs') → ∀ x ∈ calcsAt inp tr k cs, x ∈ calcsAt inp (tr ++ obs) k cs' := by
+/-- what the calc tasks deliver according to `tr` they also deliver according to `tr'` -/
+def ResLe (inp : RunInput) (tr tr' : List Ev) : Prop :=
+  ∀ c x, (x ∈ (resAt inp tr c).calcs → x ∈ (resAt inp tr' c).calcs) ∧
+    (x ∈ (resAt inp tr c).tasks → x ∈ (resAt inp tr' c).tasks) ∧
+    (x ∈ (resAt inp tr c).files → x ∈ (resAt inp tr' c).files)
+
+/-- a longer trace delivers the same, provided a task reported failed is not reported finished later -/
+theorem resLe_append (inp : RunInput) (tr obs : List Ev)
+    (h : ∀ c, failedRunIn tr c = true → finishedIn (tr ++ obs) c = false) : ResLe inp tr (tr ++ obs) := by
+  intro c x
+  unfold resAt
+  by_cases hf : finishedIn tr c = true
+  · simp only [hf, finishedIn_append hf obs, if_true]; exact ⟨id, id, id⟩
+  · simp only [hf, Bool.false_eq_true, if_false]
+    by_cases hr : failedRunIn tr c = true
+    · have hr' : failedRunIn (tr ++ obs) c = true := by
+        unfold failedRunIn at hr ⊢
+        simp only [Bool.and_eq_true] at hr ⊢
+        exact ⟨by rw [List.any_append, hr.1]; rfl, by rw [List.any_append, hr.2]; rfl⟩
+      simp only [hr, h c hr, hr', if_true, Bool.false_eq_true, if_false]; exact ⟨id, id, id⟩
+    · simp only [hr, Bool.false_eq_true, if_false]
+      exact ⟨fun a => by simp at a, fun a => by simp at a, fun a => by simp at a⟩
+
+/-- membership in `calcsAtF` is monotone in the start list and in the trace -/
+theorem calcsAtF_mono {inp : RunInput} {tr tr' : List Ev} (hr : ResLe inp tr tr') : ∀ (k : Nat) (cs cs' : List Name),
+    (∀ y ∈ cs, y ∈ cs') → ∀ x ∈ calcsAtF inp tr k cs, x ∈ calcsAtF inp tr' k cs' := by
   intro k
   induction k with
   | zero => intro cs cs' h x hx; exact h x hx
   | succ k ih =>
     intro cs cs' h x hx
-    simp only [calcsAt] at hx ⊢
+    simp only [calcsAtF] at hx ⊢
     refine ih _ _ ?_ x hx
     intro y hy
     rcases (mem_addNew _ _).mp hy with a | a
     · exact (mem_addNew _ _).mpr (Or.inl (h y a))
-    · simp only [List.mem_flatMap, List.mem_filter] at a
-      obtain ⟨c, ⟨hc, hf⟩, hyc⟩ := a
+    · simp only [List.mem_flatMap] at a
+      obtain ⟨c, hc, hyc⟩ := a
       refine (mem_addNew _ _).mpr (Or.inr ?_)
-      simp only [List.mem_flatMap, List.mem_filter]
-      exact ⟨c, ⟨h c hc, finishedIn_append hf obs⟩, hyc⟩
+      simp only [List.mem_flatMap]
+      exact ⟨c, h c hc, (hr c y).1 hyc⟩
 
 /-- when every member is already finished the computation does not change with a longer trace -/
 theorem calcsAt_stable (inp : RunInput) (tr obs : List Ev) : ∀ (k : Nat) (cs : List Name),
@@ -101,21 +124,25 @@ theorem setupOK_stable {inp : RunInput} {n : Nat} {tr : List Ev} {t d : Name} (h
       exact runPending_append h (fun e he => hno e (List.mem_of_mem_take he))
 
 theorem succs_mono {inp : RunInput} {n : Nat} {tr : List Ev} {t x : Name} (obs : List Ev)
+    (hr : ResLe inp tr (tr ++ obs))
     (hS : ∀ d ∈ inp.setup t, setupOK inp n tr t d = true → setupOK inp n (tr ++ obs) t d = true)
     (h : x ∈ succs inp n tr t) : x ∈ succs inp n (tr ++ obs) t := by
-  have hc := calcsAt_mono inp tr obs n (inp.calcDep t) (inp.calcDep t) (fun y hy => hy)
+  have hc := calcsAtF_mono hr n (inp.calcDep t) (inp.calcDep t) (fun y hy => hy)
   simp only [succs, List.mem_append, List.mem_flatMap, List.mem_filter] at h ⊢
-  rcases h with ((a | a) | ⟨c, ⟨hcc, hf⟩, a⟩) | ⟨a, b⟩
+  rcases h with ((a | a) | ⟨c, hcc, a⟩) | ⟨a, b⟩
   · exact Or.inl (Or.inl (Or.inl a))
   · exact Or.inl (Or.inl (Or.inr (hc x a)))
-  · exact Or.inl (Or.inr ⟨c, ⟨hc c hcc, finishedIn_append hf obs⟩, a⟩)
+  · refine Or.inl (Or.inr ⟨c, hc c hcc, ?_⟩)
+    rcases a with a | a
+    · exact Or.inl ((hr c x).2.1 a)
+    · exact Or.inr ((hr c x).2.2 a)
   · exact Or.inr ⟨a, hS x a b⟩
 
-theorem Just.mono {inp : RunInput} {n : Nat} {tr : List Ev} (obs : List Ev)
+theorem Just.mono {inp : RunInput} {n : Nat} {tr : List Ev} (obs : List Ev) (hr : ResLe inp tr (tr ++ obs))
     (hS : ∀ t d, d ∈ inp.setup t → setupOK inp n tr t d = true → setupOK inp n (tr ++ obs) t d = true)
     {d : Name} (h : Just inp n tr d) : Just inp n (tr ++ obs) d := by
   induction h with
   | sel ht => exact .sel ht
-  | step _ hd ih => exact .step ih (succs_mono obs (fun x hx => hS _ x hx) hd)
+  | step _ hd ih => exact .step ih (succs_mono obs hr (fun x hx => hS _ x hx) hd)
 
 end DoitModel.Run
